@@ -1,10 +1,17 @@
-"""Symbolic sequences of packed elements: indexing, skolemised slices, and the MAP / JOIN / SUM
-combinators (uninterpreted per mapped function) with ground lemma instances."""
+"""Symbolic sequences of packed elements: indexing, skolemised slices, and the JOIN / SUM / ALL
+combinators over an *element function* (a method or property of the element classes, or a
+spec function), each an uninterpreted symbol with ground lemma instances:
+
+    F([]) = neutral      F([x]) = f(x)      F(a ++ b) = F(a) (+) F(b)
+
+f(x) itself is unfolded on demand (`expand_app`): case split over the element's constructor,
+then the real member / spec function is evaluated on the unpacked element.
+"""
 import ast
 import z3
 from . import smt
 from .values import (Unsupported, Obj, ListVal, SeqVal, Packed, IterSource, FuncVal, PropertyVal,
-                     BoundMethod, int_term, is_intlike)
+                     BoundMethod, int_term, is_intlike, bytes_term)
 from .pack import to_term, from_term
 
 
@@ -30,8 +37,51 @@ def seq_index(it, sv, i):
     idx = z3.simplify(idx)
     if p.branch(z3.Or(idx < 0, idx >= ln)):
         it.raise_exc('IndexError', 'list index out of range')
-    el = z3.simplify(sv.term[idx])
-    return from_term(it, el, sv.elem)
+    return from_term(it, elem_at(it, sv, idx), sv.elem)
+
+
+def elem_at(it, sv, idx):
+    """element term at a valid index, introduced by a skolemised decomposition (no seq.nth)"""
+    p = it.p
+    cache = p.ghost.setdefault('_elem_at', {})
+    key = (sv.term.get_id(), z3.simplify(idx).get_id())
+    if key in cache:
+        return cache[key]
+    s = z3.simplify(sv.term)
+    ci = smt.as_concrete_int(idx)
+    # literal sequences: pick the unit directly
+    if ci is not None:
+        units = _units(s)
+        if units is not None and 0 <= ci < len(units):
+            cache[key] = units[ci]
+            return units[ci]
+    e = p.fresh('el', sv.term.sort().basis())
+    if ci == 0:
+        head, rest = seq_split(it, sv, 1)
+        p.assume(head.term == z3.Unit(e))
+    else:
+        a, b = seq_split(it, sv, idx)
+        h2, _ = seq_split(it, b, 1)
+        p.assume(h2.term == z3.Unit(e))
+    cache[key] = e
+    return e
+
+
+def _units(s):
+    """[elements] if s is syntactically a concatenation of units / a unit / empty, else None"""
+    if z3.is_app(s) and s.decl().kind() == z3.Z3_OP_SEQ_UNIT:
+        return [s.arg(0)]
+    if z3.is_app(s) and s.decl().kind() == z3.Z3_OP_SEQ_EMPTY:
+        return []
+    if z3.is_app(s) and s.decl().kind() == z3.Z3_OP_SEQ_CONCAT:
+        out = []
+        for i in range(s.num_args()):
+            u = _units(s.arg(i))
+            if u is None:
+                return None
+            out.extend(u)
+        return out
+    return None
 
 
 def seq_split(it, sv, n):
@@ -88,111 +138,141 @@ def seq_slice(it, sv, lo, hi):
     return h
 
 
-# ----------------------------------------------------------------------- method symbols
-def member_attr(it, rec, name):
-    a, owner = rec.cls.lookup(name)
-    if owner is None:
-        raise Unsupported('%s has no attribute %s' % (rec.key, name))
-    return a
+# ----------------------------------------------------------------------- element functions
+class ElemFn(object):
+    """A function of one element of a record/family: member ('encode') or spec function."""
+
+    def __init__(self, desc, name, rdesc, spec_fn=None):
+        self.desc = desc
+        self.name = name
+        self.rdesc = rdesc
+        self.spec_fn = spec_fn   # FuncVal for spec functions, None for members
+        self.symbol = None
+
+    @property
+    def key(self):
+        return (self.desc, self.name)
+
+    def sym(self, it):
+        syms = it.p.fn_symbols
+        if self.key not in syms:
+            syms[self.key] = z3.Function('%s.%s' % (self.desc.split('.')[-1], self.name.lstrip('@')),
+                                         it.types.sort_of(self.desc), it.types.sort_of(self.rdesc))
+        return syms[self.key]
+
+    def evaluate(self, it, obj):
+        if self.spec_fn is not None:
+            return it.call(self.spec_fn, [obj], {})
+        a, owner = obj.cls.lookup(self.name)
+        if owner is None:
+            raise Unsupported('%s has no member %s' % (obj.cls.name, self.name))
+        if isinstance(a, PropertyVal):
+            return it.call(a.fget, [obj], {})
+        return it.call(BoundMethod(obj, a), [], {})
 
 
-def method_result_desc(it, desc, name):
-    res = None
-    for rec in it.types.members_of(desc):
-        a = member_attr(it, rec, name)
-        fv = a.fget if isinstance(a, PropertyVal) else a
-        if not isinstance(fv, FuncVal):
-            raise Unsupported('%s.%s is not a method/property' % (rec.key, name))
-        c = it.contracts.get(fv.qualname)
-        d = c.result_type if c is not None else None
-        if d is None:
-            d = it.hooks.get('default_result_types', {}).get(name)
-        if d is None:
-            raise Unsupported('no result type declared for %s (needed for fold over %s)' % (fv.qualname, desc))
-        if res is not None and res != d:
-            raise Unsupported('result types of %s differ within %s' % (name, desc))
-        res = d
-    return res
+DEFAULT_RESULT = {'encode': 'bytes', 'total_length': 'int', 'item_length': 'int', 'pdu_length': 'int'}
 
 
-def method_symbol(it, desc, name):
+def member_fn(it, desc, name):
+    reg = it.hooks.setdefault('_elem_fns', {})
     key = (desc, name)
-    syms = it.p.fn_symbols
-    if key not in syms:
-        rdesc = method_result_desc(it, desc, name)
-        f = z3.Function('%s.%s' % (desc.split('.')[-1], name), it.types.sort_of(desc), it.types.sort_of(rdesc))
-        syms[key] = (f, rdesc)
-    return syms[key]
+    if key not in reg:
+        rdesc = None
+        for rec in it.types.members_of(desc):
+            a, owner = rec.cls.lookup(name)
+            if owner is None:
+                raise Unsupported('%s has no attribute %s' % (rec.key, name))
+            fv = a.fget if isinstance(a, PropertyVal) else a
+            c = it.contracts.get(fv.qualname) if isinstance(fv, FuncVal) else None
+            d = c.result_type if c is not None and c.result_type else DEFAULT_RESULT.get(name)
+            if d is None:
+                raise Unsupported('no result type known for member %s of %s' % (name, rec.key))
+            if rdesc is not None and rdesc != d:
+                raise Unsupported('result types of %s differ within %s' % (name, desc))
+            rdesc = d
+        reg[key] = ElemFn(desc, name, rdesc)
+    return reg[key]
 
 
-def call_member(it, obj, name):
-    """obj.name or obj.name() depending on whether name is a property"""
-    a, owner = obj.cls.lookup(name)
-    if isinstance(a, PropertyVal):
-        return it.call(a.fget, [obj], {})
-    return it.call(BoundMethod(obj, a), [], {})
+def spec_fn(it, desc, fv, rdesc):
+    reg = it.hooks.setdefault('_elem_fns', {})
+    key = (desc, '@' + fv.qualname)
+    if key not in reg:
+        reg[key] = ElemFn(desc, '@' + fv.qualname, rdesc, fv)
+    return reg[key]
 
 
-def expand_app(it, desc, name, elem_term):
-    """Assume  f(elem) == <value of the real member on the unpacked element> (case split)."""
-    f, rdesc = method_symbol(it, desc, name)
+def expand_app(it, ef, elem_term):
+    """Assume  f(elem) == <value of the real member / spec function on the unpacked element>."""
+    f = ef.sym(it)
     done = it.p.ghost.setdefault('_expanded', set())
-    key = (desc, name, elem_term.get_id())
+    key = (ef.key, elem_term.get_id())
     if key in done:
         return
     done.add(key)
     from .pack import unpack
-    obj = unpack(it, Packed(elem_term, desc))
-    val = call_member(it, obj, name)
-    it.p.assume(f(elem_term) == to_term(it, val, rdesc))
+    obj = unpack(it, Packed(elem_term, ef.desc))
+    from .values import Raised
+    try:
+        val = ef.evaluate(it, obj)
+    except Raised as r:
+        # the real function is partial: where it raises nothing is learnt about f(elem)
+        import os
+        if os.environ.get('PYVC_DEBUG'):
+            print('expand_app: %s raised %s %r' % (ef.name, r.exc.cls.name, r.exc.fields.get('args')))
+        if ef.spec_fn is None:
+            # f = a real member (encode, total_length): a fold F[f](xs) over a sequence containing
+            # this element was computed by real code, which would have raised as well -- such
+            # sequences are outside the domain of the values that can be built and encoded
+            from .values import PathEnd
+            raise PathEnd('element function %s raises %s here: outside the domain' % (ef.name, r.exc.cls.name))
+        raise Unsupported('spec function %s raised %s' % (ef.name, r.exc.cls.name))
+    if ef.rdesc == 'bool':
+        t = z3.BoolVal(val) if isinstance(val, bool) else val
+    else:
+        t = to_term(it, val, ef.rdesc)
+    it.p.assume(f(elem_term) == t)
 
 
 class Fold(object):
-    """JOIN / SUM of an uninterpreted per-element function over a sequence."""
-
-    def __init__(self, it, kind, desc, name):
+    def __init__(self, it, kind, ef):
         self.kind = kind
-        self.desc = desc
-        self.name = name
-        self.f, self.rdesc = method_symbol(it, desc, name)
-        seq_sort = z3.SeqSort(it.types.sort_of(desc))
-        if kind == 'JOIN':
-            if self.rdesc != 'bytes':
-                raise Unsupported('JOIN over non-bytes member %s' % name)
-            self.F = z3.Function('JOIN_%s.%s' % (desc.split('.')[-1], name), seq_sort, smt.Bytes)
-        elif kind == 'SUM':
-            if self.rdesc != 'int':
-                raise Unsupported('SUM over non-int member %s' % name)
-            self.F = z3.Function('SUM_%s.%s' % (desc.split('.')[-1], name), seq_sort, smt.Int)
-        else:
-            raise Unsupported('fold kind %s' % kind)
-        self.applied = []
+        self.ef = ef
+        self.f = ef.sym(it)
+        seq_sort = z3.SeqSort(it.types.sort_of(ef.desc))
+        want = {'JOIN': 'bytes', 'SUM': 'int', 'ALL': 'bool'}[kind]
+        if ef.rdesc != want:
+            raise Unsupported('%s over a %s-valued element function %s' % (kind, ef.rdesc, ef.name))
+        rsort = {'JOIN': smt.Bytes, 'SUM': smt.Int, 'ALL': smt.Bool}[kind]
+        self.F = z3.Function('%s_%s.%s' % (kind, ef.desc.split('.')[-1], ef.name.lstrip('@')), seq_sort, rsort)
+        self.applied = {}
 
     def neutral(self):
-        return z3.Empty(smt.Bytes) if self.kind == 'JOIN' else z3.IntVal(0)
+        return {'JOIN': z3.Empty(smt.Bytes), 'SUM': z3.IntVal(0), 'ALL': z3.BoolVal(True)}[self.kind]
 
     def combine(self, a, b):
-        return z3.Concat(a, b) if self.kind == 'JOIN' else a + b
+        if self.kind == 'JOIN':
+            return z3.Concat(a, b)
+        if self.kind == 'SUM':
+            return a + b
+        return z3.And(a, b)
 
     def apply(self, it, st):
         t = self.F(st)
         p = it.p
         key = st.get_id()
-        if key in [x.get_id() for x in self.applied]:
+        if key in self.applied:
             return t
-        self.applied.append(st)
+        self.applied[key] = st
         ln = z3.Length(st)
         p.facts.add(z3.Implies(ln == 0, t == self.neutral()))
         p.facts.add(z3.Implies(ln == 1, t == self.f(st[0])))
-        if self.kind == 'SUM':
-            pass
-        # syntactic concat / unit
         s = z3.simplify(st)
         if z3.is_app(s) and s.decl().kind() == z3.Z3_OP_SEQ_CONCAT:
-            parts = [s.arg(i) for i in range(s.num_args())]
             acc = None
-            for part in parts:
-                ft = self.apply(it, part)
+            for i in range(s.num_args()):
+                ft = self.apply(it, s.arg(i))
                 acc = ft if acc is None else self.combine(acc, ft)
             p.facts.add(t == acc)
         elif z3.is_app(s) and s.decl().kind() == z3.Z3_OP_SEQ_UNIT:
@@ -200,29 +280,61 @@ class Fold(object):
         elif z3.is_app(s) and s.decl().kind() == z3.Z3_OP_SEQ_EMPTY:
             p.facts.add(t == self.neutral())
         for (whole, h, r) in p.ghost.get('_seq_decomps', []):
-            if whole.get_id() == st.get_id():
+            if whole.get_id() == key:
                 self.instantiate_split(it, whole, h, r)
+        for lem in it.hooks.get('_fold_lemmas', []):
+            lem.on_apply(it, self, st)
         return t
 
     def instantiate_split(self, it, whole, h, r):
-        if whole.get_id() not in [x.get_id() for x in self.applied]:
+        if whole.get_id() not in self.applied:
             return
-        p = it.p
         fh = self.apply(it, h)
         fr = self.apply(it, r)
-        p.facts.add(self.F(whole) == self.combine(fh, fr))
+        eq = self.F(whole) == self.combine(fh, fr)
+        it.p.facts.add(eq)
+        if self.kind == 'JOIN':
+            it.p.note_def(eq)
 
 
-def get_fold(it, kind, desc, name):
+def get_fold(it, kind, ef):
     folds = it.p.ghost.setdefault('_folds', {})
-    key = (kind, desc, name)
+    key = (kind,) + ef.key
     if key not in folds:
-        folds[key] = Fold(it, kind, desc, name)
+        folds[key] = Fold(it, kind, ef)
     return folds[key]
 
 
+def reveal_head(it, sv, efs):
+    """Case split on `sv` empty / non-empty; in the non-empty case split off the head element,
+    instantiate every fold on the decomposition and unfold the given element functions on the
+    head.  Returns the head as a Packed value (or None when empty)."""
+    p = it.p
+    if p.branch(z3.Length(sv.term) == 0):
+        for fold in list(p.ghost.get('_folds', {}).values()):
+            if fold.ef.desc == sv.elem:
+                fold.apply(it, sv.term)
+        return None
+    head, rest = seq_split(it, sv, 1)
+    y = elem_at(it, sv, z3.IntVal(0))
+    for fold in list(p.ghost.get('_folds', {}).values()):
+        if fold.ef.desc == sv.elem:
+            fold.apply(it, sv.term)
+            fold.apply(it, head.term)
+            fold.apply(it, rest.term)
+            fold.instantiate_split(it, sv.term, head.term, rest.term)
+            # head == [y]:  F(head) = f(y)
+            unit_eq = fold.F(head.term) == fold.f(y)
+            p.facts.add(unit_eq)
+            if fold.kind == 'JOIN':
+                p.note_def(unit_eq, force=True)
+    for ef in efs:
+        expand_app(it, ef, y)
+    return Packed(y, sv.elem)
+
+
+# ----------------------------------------------------------------------- comprehensions
 def _elt_member(node):
-    """elt of a comprehension must be VAR.member or VAR.member(): returns member name"""
     g = node.generators[0]
     if len(node.generators) != 1 or g.ifs or not isinstance(g.target, ast.Name):
         raise Unsupported('comprehension over a symbolic sequence must be a plain single generator')
@@ -241,19 +353,19 @@ def map_over_seq(it, node, seqv, sub):
 
 
 def _seqmap_parts(src):
-    node, seqv, sub = src.data[0], src.data[1], src.data[2]
+    node, seqv = src.data[0], src.data[1]
     name = src.data[3] if len(src.data) > 3 else _elt_member(node)
     return seqv, name
 
 
 def fold_sum(it, src):
     seqv, name = _seqmap_parts(src)
-    return get_fold(it, 'SUM', seqv.elem, name).apply(it, seqv.term)
+    return get_fold(it, 'SUM', member_fn(it, seqv.elem, name)).apply(it, seqv.term)
 
 
 def fold_join(it, src):
     seqv, name = _seqmap_parts(src)
-    return get_fold(it, 'JOIN', seqv.elem, name).apply(it, seqv.term)
+    return get_fold(it, 'JOIN', member_fn(it, seqv.elem, name)).apply(it, seqv.term)
 
 
 def fold_join_seq(it, sv):
@@ -262,3 +374,74 @@ def fold_join_seq(it, sv):
 
 def seqmap_to_seq(it, src):
     raise Unsupported('materialising a mapped symbolic sequence')
+
+
+# ----------------------------------------------------------------------- lemma schemas
+class FoldLemma(object):
+    """Inductive facts about folds, applied by the engine (structural induction over the
+    sequence is part of the trusted base); the pointwise premise is a proof obligation
+    generated by `premise_obligations`.
+
+    kind 'len_of_join':  ALL[valid](xs) => SUM[g](xs) == |JOIN[f](xs)|     premise: valid(x) => g(x) == |f(x)|
+    kind 'join_ext':     ALL[valid](xs) => JOIN[f1](xs) == JOIN[f2](xs)    premise: valid(x) => f1(x) == f2(x)
+    kind 'sum_nonneg':   SUM[g](xs) >= 0                                    premise: g(x) >= 0
+    """
+
+    def __init__(self, kind, desc, names, valid=None, label=None):
+        self.kind = kind
+        self.desc = desc
+        self.names = names      # element function keys (resolved lazily through resolver callables)
+        self.valid = valid
+        self.label = label or '%s(%s)' % (kind, ','.join(str(n) for n in names))
+
+    def resolve(self, it):
+        return [r(it) for r in self.names], (self.valid(it) if self.valid else None)
+
+    def on_apply(self, it, fold, st):
+        efs, valid = self.resolve(it)
+        keys = [ef.key for ef in efs]
+        if fold.ef.key not in keys:
+            return
+        p = it.p
+        done = p.ghost.setdefault('_lemma_inst', set())
+        k = (self.label, st.get_id())
+        if k in done:
+            return
+        done.add(k)
+        guard = z3.BoolVal(True)
+        if valid is not None:
+            guard = get_fold(it, 'ALL', valid).apply(it, st)
+        if self.kind == 'len_of_join':
+            f, g = efs
+            J = get_fold(it, 'JOIN', f).apply(it, st)
+            S = get_fold(it, 'SUM', g).apply(it, st)
+            p.facts.add(z3.Implies(guard, S == z3.Length(J)))
+        elif self.kind == 'join_ext':
+            f1, f2 = efs
+            J1 = get_fold(it, 'JOIN', f1).apply(it, st)
+            J2 = get_fold(it, 'JOIN', f2).apply(it, st)
+            p.facts.add(z3.Implies(guard, J1 == J2))
+        elif self.kind == 'sum_nonneg':
+            g, = efs
+            S = get_fold(it, 'SUM', g).apply(it, st)
+            p.facts.add(z3.Implies(guard, S >= 0))
+
+    def premise(self, it, x_term):
+        """the pointwise premise as a formula about element term x (after expansion)"""
+        efs, valid = self.resolve(it)
+        for ef in efs:
+            expand_app(it, ef, x_term)
+        hyp = z3.BoolVal(True)
+        if valid is not None:
+            expand_app(it, valid, x_term)
+            hyp = valid.sym(it)(x_term)
+        if self.kind == 'len_of_join':
+            f, g = efs
+            goal = g.sym(it)(x_term) == z3.Length(f.sym(it)(x_term))
+        elif self.kind == 'join_ext':
+            f1, f2 = efs
+            goal = f1.sym(it)(x_term) == f2.sym(it)(x_term)
+        else:
+            g, = efs
+            goal = g.sym(it)(x_term) >= 0
+        return hyp, goal
